@@ -1112,4 +1112,13 @@ def mirror_sense(repo: Repo) -> RuleRun:
 
 mirror_sense.rule_id = "C09.MIRROR-SENSE"
 
-RULES = [arc_sense, purity, no_alias_store, affine_balance, unit_normal, direction_parts, transform_equals_methods, transform_routing, linear_parts, deep_copy, mirror_matrix, no_shared_parts, arguments_untouched, super_forwarding, inplace_then_read, invalidate_last, live_lengths, private_coordinates, live_arrays, displacement_copied, average_axis, unit_axis, mirror_sense]
+def geometry_role_free(repo: Repo) -> RuleRun:
+    """'mirroring any entity ... gives the same ... as applying that map to the geometry produced by the untransformed entity' - the declared searchable surface included. Same rule as C06.GEOMETRY-ROLE-FREE."""
+    from . import c06
+
+    return c06.geometry_role_free(repo, PROP, "C09.GEOMETRY-ROLE-FREE")
+
+
+geometry_role_free.rule_id = "C09.GEOMETRY-ROLE-FREE"
+
+RULES = [arc_sense, purity, no_alias_store, affine_balance, unit_normal, direction_parts, transform_equals_methods, transform_routing, linear_parts, deep_copy, mirror_matrix, no_shared_parts, arguments_untouched, super_forwarding, inplace_then_read, invalidate_last, live_lengths, private_coordinates, live_arrays, displacement_copied, average_axis, unit_axis, mirror_sense, geometry_role_free]
